@@ -2,6 +2,7 @@ import GeomV.C06.Model
 import GeomV.C06.Spec
 import GeomV.C06.Text
 import GeomV.C06.Cert
+import GeomV.C06.Unmarshal
 import Std.Data.HashMap
 import GeomV.C17.Dec
 /-!
@@ -107,6 +108,10 @@ def coordsOverflow : BTree → Bool
   | .obj kvs => kvs.any fun kv => foldKey kv.1 == "coordinates".toList && hasInf kv.2
   | _ => false
 
+/-- the conversion `json.Unmarshal` applies to a literal it stores: out-of-range literals (kept as ±Inf bits by
+`rawPn`) have no value -/
+def rangeConv (b : UInt64) : Option UInt64 := if Dec.isFiniteBits b then some b else none
+
 def pairsOf : Tok → List (UInt64 × List Char)
   | b :: r :: t => match parseU64 b with
     | some u => (u, r.toList) :: pairsOf t
@@ -173,6 +178,37 @@ def judgeKept (g : BGeom) (res : Tok) : Option String :=
           | some g' => if Geom.beq g' g then none else some "kept-result-RFC-reading-differs"
     | _, _ => some "encode-result-aliased: kept bytes are not UTF-8 any more"
   | _ => some ("encoder-" ++ " ".intercalate res)
+
+/-- one step of a `hist` line (a history on ONE object: in-place edits between Encode calls); `g` is the value the
+object holds at this step.  Returns (spec violation, difference from the model). -/
+def judgeHistStep (g : BGeom) (res : Tok) : Option String × Option String :=
+  let encodable := Rfc.supported g && Rfc.allFinite fin g
+  let guard := encodable && Rfc.firstMemberNonEmpty g
+  match res with
+  | ["argument-modified"] => (some "argument-modified-by-Encode", none)
+  | ["err", k] =>
+    if encodable then (some s!"encoder-rejected-encodable-geometry-{k}", none)
+    else match toTree fin g with
+      | .error e => (none, if errName e == k then none else some s!"error-kind model={errName e} impl={k}")
+      | .ok _ => (none, some "model-encodes-impl-errs")
+  | "ok" :: h :: "|" :: dec =>
+    if !encodable then (some "encoder-accepted-unsupported-or-non-finite", none)
+    else match hexToText ((h.drop 1).toString) with
+      | none => (some "output-not-utf8", none)
+      | some txt =>
+        match parseJson txt with
+        | none => (some s!"output-is-not-JSON-text {String.ofList txt}", none)
+        | some t =>
+          match Rfc.read t with
+          | none => (some s!"not-an-RFC7946-geometry-object {String.ofList txt}", none)
+          | some g' =>
+            let d := " ".intercalate dec
+            if !Geom.beq g' g then
+              (some s!"text-does-not-describe-the-value-the-object-holds-now text={String.ofList txt}", none)
+            else if guard && d != "ok " ++ Proto.geomStr g then (some s!"decode-of-encode-differs got={d}", none)
+            else if dec.head? == some "panic" then (some d, none)
+            else (none, if d == modelRt g then none else some s!"model={modelRt g} impl={d}")
+  | _ => (some ("encoder-" ++ " ".intercalate res), none)
 
 def judgeSeq (line : String) : String :=
   let (lhs, rhs) := splitArrow (tokens line)
@@ -260,11 +296,11 @@ def judgeSeq (line : String) : String :=
         else if rhs.head? == some "panic" then s!"SPEC dec-notjson decoder-{rhsS}"
         else s!"DIFF dec-notjson driver-parser-rejects-the-text impl={rhsS} doc={String.ofList txt}"
       | some t =>
-        if coordsOverflow t then
-          (if rhs == ["err", "unmarshaltype"] then "OK dec-number-overflow"
-           else s!"DIFF dec-number-overflow model=err unmarshaltype impl={rhsS} doc={String.ofList txt}") else
-        let m := fromTree t
-        let cls := "dec-" ++ (match m with | .ok g => geomClass g | .error e => "err-" ++ errName e)
+        -- literal-level model of json.Unmarshal (Unmarshal.lean, closed form proved in UnmarshalProofs.lean): the
+        -- driver's literals are bit patterns in which ±Inf stands for "value out of the binary64 range"
+        let m := fromTreeL rangeConv t
+        let cls := if coordsOverflow t then "dec-number-overflow"
+          else "dec-" ++ (match m with | .ok g => geomClass g | .error e => "err-" ++ errName e)
         if rhs.head? == some "panic" then s!"SPEC {cls} decoder-{rhsS}"
         else if showGeomRes m == rhsS then s!"OK {cls}"
         else s!"DIFF {cls} model={showGeomRes m} impl={rhsS} doc={String.ofList txt}"
@@ -282,6 +318,24 @@ def judgeSeq (line : String) : String :=
           match bad with
           | [] => s!"OK batch"
           | w :: _ => s!"SPEC batch {w}"
+  | "hist" :: n :: gt =>
+    match n.toNat? with
+    | none => "BAD hist"
+    | some k =>
+      match pGeoms k gt with
+      | none => "BAD parse"
+      | some gs =>
+        let rs := splitSemi rhs
+        if rhs.head? == some "panic" || rhs.head? == some "crash" || rhs.head? == some "timeout" then s!"SPEC hist {rhsS}"
+        else if rs.length != gs.length then s!"SPEC hist harness-result-{rhsS}"
+        else
+          let vs := (gs.zip rs).zipIdx.map fun ((g, r), i) => (i, g, judgeHistStep g r)
+          let bad := vs.filterMap fun (i, g, v) => v.1.map fun w => s!"call#{i}({geomClass g}):{w}"
+          let diff := vs.filterMap fun (i, g, v) => v.2.map fun w => s!"call#{i}({geomClass g}):{w}"
+          match bad, diff with
+          | w :: _, _ => s!"SPEC hist {w}"
+          | [], w :: _ => s!"DIFF hist {w}"
+          | [], [] => s!"OK hist"
   | "dbatch" :: n :: gt =>
     match n.toNat? with
     | none => "BAD dbatch"
